@@ -16,10 +16,17 @@
   write-ready at all.  All theorems quantify over every reply description `r` satisfying
   `WF`, every fault script of any length, every answer in it.
 
+  The close path (MHD_connection_close_, connection_reset, cleanup_connection) is modelled by the
+  record `Conn.bk : Bk`: the flags the three functions test and clear (`client_aware`,
+  `rp.response ≠ NULL`, `pool ≠ NULL`, `in_cleanup`) and ghost counters of what they did
+  (completion notifications with their code, response references dropped, pools destroyed /
+  reset, insertions into the clean-up list).
+
   Statements only; the proofs live in `Mhd.Proofs.Send*`.
 -/
 import Mhd.Proofs.SendProgress
 import Mhd.Proofs.SendUp
+import Mhd.Proofs.SendClose
 
 namespace Mhd.C07
 open Mhd.Send Mhd.Gen.Send
@@ -83,10 +90,13 @@ theorem transient_measure (r : Resp) (hw : WFp r) (xs : List Round) (hx : ∀ x 
   exact hp.2
 
 /-- After the connection has been closed (or the reply completed) nothing is ever sent
-    again: every further round leaves the connection, and in particular `out`, unchanged. -/
+    again: every further round leaves the state and `out` unchanged; the only thing that may still
+    happen is the (guarded, idempotent) `cleanup_connection` of the CLOSED case of the idle loop. -/
 theorem closed_never_sends (r : Resp) (c : Conn) (h : c.st = .closed ∨ c.st = .done) (xs : List Round) :
-    run r c xs = c :=
-  run_final xs c h
+    (run r c xs).st = c.st ∧ (run r c xs).out = c.out ∧ (run r c xs = c ∨ run r c xs = idleClosed c) := by
+  rcases run_final (r := r) xs c h with e | e <;> rw [e]
+  · exact ⟨rfl, rfl, Or.inl rfl⟩
+  · exact ⟨idleClosed_st c, idleClosed_out c, Or.inr rfl⟩
 
 /-- A permanent failure of the system call (`errno` not mapped to "again") closes the
     connection and nothing of that call reaches the wire — unless the round made no call at
@@ -96,7 +106,15 @@ theorem hard_error_closes (r : Resp) (c : Conn) (e : Errno) (he : Errno.isHard e
     (x : Round) (hwr : x.wr = true) (hs1 : x.s1 = .err e) :
     ((round r c x).st = .closed ∧ (round r c x).out = c.out) ∨
     round r c x = round r c { x with s1 := .full } :=
-  hard_error_closes_aux e he hsf x hwr hs1
+  hard_error_closes_aux e he (fun _ => hsf) x hwr hs1
+
+/-- … and the sendfile sender: EBADF (the one errno `MHD_send_sendfile_` does not answer with a
+    retry or the fall-back) closes the connection, nothing reaches the wire. -/
+theorem sendfile_hard_error_closes (r : Resp) (c : Conn) (e : Errno) (he : Errno.isHardSendfile e)
+    (hs : c.st = .normalBodyReady) (hsf : c.sf = true) (x : Round) (hwr : x.wr = true) (hs1 : x.s1 = .err e) :
+    ((round r c x).st = .closed ∧ (round r c x).out = c.out) ∨
+    round r c x = round r c { x with s1 := .full } :=
+  sendfile_hard_closes_aux e he hs hsf x hwr hs1
 
 /-- sendfile(): EAGAIN/EINTR ⇒ retry later; EBADF ⇒ hard error; every other errno ⇒
     nothing sent, fall back to the standard sender and retry (mhd_send.c:1255-1279). -/
@@ -136,6 +154,133 @@ theorem upload_prefix (cap : Nat) (body rest : Bytes) (ops : List UpOp) :
     (upRun (upInit cap body rest) ops).handed <+: body :=
   (upRun_inv ops _ (upInit_inv cap body rest)).handed_prefix
 
+/-- "No duplication or gap" over the whole life of a connection: for a keep-alive connection that
+    serves any number of (pipelined) requests, each reply with its own fault script — short writes
+    inside the header, inside a chunk header, between iovec elements, in the combined
+    header+body send, after the sendfile fall-back, allocation failures, reader errors — the
+    concatenation of ALL bytes the socket accepted is a prefix of the concatenation of the reply
+    streams; a reply is started only after the previous one is complete. -/
+theorem session_prefix (ss : List (Resp × Bool × List Round)) (hw : ∀ s ∈ ss, WF s.1)
+    (hx : ∀ s ∈ ss, ∀ x ∈ s.2.2, x.Legal) :
+    session ss <+: (ss.map (fun s => stream s.1)).flatten :=
+  session_prefix_aux ss hw hx
+
+/-- "Transient failures alone never change what is finally delivered", for unbounded repetition:
+    take ANY infinite schedule `f` of transient rounds (EAGAIN, EINTR, short counts, reader not
+    ready, socket not writable — in any interleaving, repeated without bound).
+    FAIRNESS HYPOTHESIS (the only one): productive rounds keep coming — after every point of the
+    schedule there is a later round in which the socket is writable, takes at least one byte and
+    the reader is ready.  Then from some point on the reply is complete and exactly `R` has been
+    delivered (and by `closed_never_sends` it stays that way). -/
+theorem transient_fair_delivers_all (r : Resp) (hw : WFp r) (f : Nat → Round) (hx : ∀ n, (f n).transient)
+    (fair : ∀ n, ∃ m, n ≤ m ∧ (f m).good) :
+    ∃ N, ∀ n, N ≤ n →
+      (run r (startReply r true) ((List.range n).map f)).st = .done ∧
+      (run r (startReply r true) ((List.range n).map f)).out = stream r := by
+  obtain ⟨N, hN⟩ := fair_reaches f fair (8 * (stream r).length + 1)
+  refine ⟨N, fun n hn => ?_⟩
+  have hmono := countGood_mono f N n hn
+  exact transient_delivers_all r hw _ (fun x hxm => by
+    obtain ⟨i, _, rfl⟩ := List.mem_map.mp hxm
+    exact hx i) (by omega)
+
+/-- Release exactly once, for EVERY fault script: while the reply is in progress nothing has been
+    notified or released; after an error close there is exactly one completion notification
+    (WITH_ERROR) iff the request had been presented to the application, the response reference
+    has been dropped exactly once, the pool destroyed exactly once, the connection inserted into
+    the clean-up list at most once; after a completed reply one notification iff presented
+    (COMPLETED_OK, or WITH_ERROR for an automatic error reply), the response reference dropped
+    exactly once, the pool reset (keep-alive) or destroyed — exactly one of the two, once. -/
+theorem release_exactly_once (r : Resp) (allocStart : Bool) (xs : List Round) :
+    let c := run r (startReply r allocStart) xs
+    (c.st ≠ .closed → c.st ≠ .done →
+      c.bk.notes = [] ∧ c.bk.aware = r.aware ∧ c.bk.respHeld = true ∧ c.bk.respDrops = 0 ∧ c.bk.poolLive = true ∧
+      c.bk.poolDestroys = 0 ∧ c.bk.poolResets = 0 ∧ c.bk.cstClosed = false ∧ c.bk.cleanups = 0 ∧ c.bk.inCleanup = false) ∧
+    (c.st = .closed →
+      c.bk.notes = (if r.aware then [Term.withError] else []) ∧ c.bk.aware = false ∧
+      c.bk.respHeld = false ∧ c.bk.respDrops = 1 ∧ c.bk.poolLive = false ∧ c.bk.poolDestroys = 1 ∧
+      c.bk.poolResets = 0 ∧ c.bk.cstClosed = true ∧ c.bk.cleanups = (if c.bk.inCleanup then 1 else 0)) ∧
+    (c.st = .done →
+      c.bk.notes.length = (if r.aware then 1 else 0) ∧
+      (∀ t ∈ c.bk.notes, t = Term.completedOk ∨ (t = Term.withError ∧ r.stopErr = true ∧ r.reuse = false)) ∧
+      c.bk.aware = false ∧ c.bk.respHeld = false ∧ c.bk.respDrops = 1 ∧
+      c.bk.poolDestroys + c.bk.poolResets = 1 ∧ c.bk.poolLive = decide (c.bk.poolResets = 1) ∧
+      c.bk.cstClosed = decide (c.bk.poolDestroys = 1) ∧
+      c.bk.cleanups = (if c.bk.inCleanup then 1 else 0) ∧ (c.bk.inCleanup = true → c.bk.cstClosed = true)) := by
+  have hb := run_book_inv xs _ (start_book r allocStart)
+  exact ⟨fun h1 h2 => hb.live_counts (fun hf => hf.elim h1 h2), hb.closed_counts, hb.done_counts⟩
+
+/-- After a permanent failure of a socket call — in ANY state of the reply, after ANY history of
+    faults — the connection is closed, nothing of that call reaches the wire, completion is
+    notified exactly once (iff the request was presented to the application), the response
+    reference is dropped exactly once, the pool is destroyed exactly once, the connection is
+    put on the clean-up list exactly once; and whatever rounds `ys` follow change none of this:
+    no further byte is sent.  (Or the round made no system call at all, then the answer is
+    irrelevant.)  `Permanent c e`: what the code treats as permanent in state `c` — for the
+    sendfile sender only EBADF (`sendfile_error_policy`), for the standard senders every errno not
+    mapped to "try again" (ECONNRESET, EPIPE, ENOTCONN, EINVAL, ENOMEM, EBADF, …). -/
+theorem permanent_failure_releases_once (r : Resp) (allocStart : Bool) (xs : List Round) (x : Round)
+    (e : Errno) (hwr : x.wr = true) (hs1 : x.s1 = .err e) (ys : List Round)
+    (he : Permanent (run r (startReply r allocStart) xs) e) :
+    let c := run r (startReply r allocStart) xs
+    let c' := run r (round r c x) ys
+    round r c x = round r c { x with s1 := .full } ∨
+    (c'.st = .closed ∧ c'.out = c.out ∧
+     c'.bk.notes = (if r.aware then [Term.withError] else []) ∧ c'.bk.aware = false ∧
+     c'.bk.respHeld = false ∧ c'.bk.respDrops = 1 ∧ c'.bk.poolLive = false ∧ c'.bk.poolDestroys = 1 ∧
+     c'.bk.poolResets = 0 ∧ c'.bk.inCleanup = true ∧ c'.bk.cleanups = 1) := by
+  intro c c'
+  rcases permanent_closes_aux (r := r) (c := c) e he x hwr hs1 with ⟨hst, hout⟩ | hsame
+  · right
+    have hb : Book r c := run_book_inv xs _ (start_book r allocStart)
+    have hbk := round_closed_bk hb x hst
+    have hfin : c'.st = .closed ∧ c'.out = c.out ∧ c'.bk = ((Bk.init r.aware).close .withError).fin := by
+      rcases run_final (r := r) ys (round r c x) (Or.inl hst) with e' | e'
+      · show (run r (round r c x) ys).st = _ ∧ (run r (round r c x) ys).out = _ ∧ (run r (round r c x) ys).bk = _
+        rw [e']; exact ⟨hst, hout, hbk⟩
+      · show (run r (round r c x) ys).st = _ ∧ (run r (round r c x) ys).out = _ ∧ (run r (round r c x) ys).bk = _
+        rw [e', idleClosed_st, idleClosed_out, idleClosed_bk, hbk]
+        exact ⟨hst, hout, Bk.fin_idem _⟩
+    obtain ⟨h1, h2, h3⟩ := hfin
+    refine ⟨h1, h2, ?_⟩
+    rw [h3]
+    cases r.aware <;> decide
+  · left; exact hsame
+
+/-- Uploads, completion: when nothing of the body remains to be processed, the application has
+    received exactly the body — whatever short reads, EAGAIN, EINTR happened on the way. -/
+theorem upload_complete (cap : Nat) (body rest : Bytes) (ops : List UpOp)
+    (h0 : (upRun (upInit cap body rest) ops).remaining = 0) :
+    (upRun (upInit cap body rest) ops).handed = body :=
+  (upRun_inv ops _ (upInit_inv cap body rest)).complete h0
+
+/-- Uploads: EAGAIN / EINTR on `recv` change nothing at all … -/
+theorem upload_transient_unchanged (u : Up) (e : Errno) (h : (e.isEagain || e.isEintr) = true) :
+    upRead u (.err e) = u := by
+  have hm : mapRecvErr e = .again := by
+    unfold mapRecvErr
+    cases h1 : e.isEagain
+    · have h2 : e.isEintr = true := by simpa [h1] using h
+      simp [h2]
+    · simp
+  unfold upRead recvAdapter
+  simp only [hm, Bool.false_eq_true, if_false]
+  split
+  · rfl
+  · split <;> rfl
+
+/-- … a permanent receive error (reset, …) or the end of the stream closes the read side, and
+    after that nothing more is ever handed to the application. -/
+theorem upload_closed_stops (u : Up) (h : u.closed = true) (ops : List UpOp) : upRun u ops = u :=
+  upRun_closed ops u h
+
+theorem upload_hard_error_closes (u : Up) (e : Errno) (he : mapRecvErr e ≠ .again) (hc : u.closed = false)
+    (hsp : u.cap ≠ u.buf.length) :
+    (upRead u (.err e)).closed = true ∧ (upRead u (.err e)).handed = u.handed := by
+  unfold upRead recvAdapter
+  simp only [hc, Bool.false_eq_true, if_false, hsp]
+  cases hm : mapRecvErr e <;> first | exact absurd hm he | simp
+
 /-! ### Non-vacuity -/
 
 /-- a chunked reply from a content reader, 7 body bytes, chunks of at most 3 -/
@@ -156,6 +301,7 @@ theorem exResp_wf : WF exResp := by
 theorem exResp_wfp : WFp exResp :=
   ⟨exResp_wf, by decide, fun _ => by decide, fun _ => by decide, fun h => by simp [exResp] at h⟩
 
+set_option maxRecDepth 8192 in
 /-- short writes, EAGAIN, EINTR and a reader that is not ready at first: the reply still
     arrives complete, and the hypotheses of the theorems above are satisfiable -/
 example :
@@ -178,5 +324,59 @@ example : Errno.isHard .ECONNRESET ∧ Errno.isHard .EPIPE ∧ ¬ Errno.isHard .
 example : (upRun (upInit 8 [1, 2, 3, 4, 5] [9, 9])
     [.read (.data 2), .process 1, .read (.err .EAGAIN), .read (.data 100), .process 100]).handed = [1, 2, 3, 4, 5] := by
   decide
+
+/-- a fair schedule with unbounded repetition of failures: every other round EAGAIN, the rounds in
+    between take a single byte -/
+def exFair (n : Nat) : Round := if n % 2 = 1 then { s1 := .short 1 } else { s1 := .err .EAGAIN }
+
+example : (∀ n, (exFair n).transient) ∧ (∀ n, ∃ m, n ≤ m ∧ (exFair m).good) := by
+  constructor
+  · intro n; unfold exFair; split <;> decide
+  · intro n
+    refine ⟨2 * n + 1, by omega, ?_⟩
+    have : (2 * n + 1) % 2 = 1 := by omega
+    unfold exFair; rw [if_pos this]; decide
+
+/-- a second reply (static buffer, keep-alive) for the session example -/
+def exResp2 : Resp :=
+  { hdr := [72, 84, 84, 80, 13, 10, 13, 10], body := [9, 8, 7], kind := .buffer, iov := [],
+    sizeKnown := true, chunked := false, sendBody := true, footer := [48, 13, 10, 13, 10],
+    bufSize := 1024, wbSize := 32768, cbMax := 0, fdOff := 0, sendfile := false, thrPerConn := false,
+    noVec := false, nonblk := true }
+
+set_option maxRecDepth 8192 in
+/-- two pipelined replies: the first one complete in spite of a short header+body send, the second one
+    reset inside its header: everything the socket took is a strict prefix of `R₁ ++ R₂` -/
+example :
+    let ss : List (Resp × Bool × List Round) :=
+      [(exResp2, true, [{ s1 := .short 9 }, { s1 := .err .EINTR }, { s1 := .full }]),
+       (exResp2, true, [{ s1 := .short 2 }, { s1 := .err .ECONNRESET }, { s1 := .full }])]
+    session ss = stream exResp2 ++ [72, 84] ∧ (session ss).length = 13 := by
+  decide
+
+set_option maxRecDepth 8192 in
+/-- a reset in the middle of a reply that the application knows about: closed, one WITH_ERROR
+    notification, the response and the pool released once, one clean-up — and nothing moves later -/
+example :
+    let c := run exResp (startReply exResp true)
+      [{ s1 := .full }, { s1 := .short 4 }, { s1 := .err .ECONNRESET }, { s1 := .full }, { s1 := .full }]
+    c.st = .closed ∧ c.bk.notes = [Term.withError] ∧ c.bk.respDrops = 1 ∧ c.bk.poolDestroys = 1 ∧
+    c.bk.cleanups = 1 ∧ c.bk.respHeld = false ∧ c.bk.poolLive = false := by
+  decide
+
+set_option maxRecDepth 8192 in
+/-- a complete keep-alive reply: one COMPLETED_OK notification, the pool reset, not destroyed -/
+example :
+    let c := run exResp2 (startReply exResp2 true) [{ s1 := .full }, { s1 := .full }]
+    c.st = .done ∧ c.bk.notes = [Term.completedOk] ∧ c.bk.respDrops = 1 ∧ c.bk.poolDestroys = 0 ∧
+    c.bk.poolResets = 1 ∧ c.bk.cleanups = 0 := by
+  decide
+
+example : Permanent (run exResp (startReply exResp true) [{ s1 := .full }]) .ECONNRESET ∧
+    Errno.isHardSendfile .EBADF ∧ ¬ Errno.isHardSendfile .EINVAL := by decide
+
+example : (upRun (upInit 8 [1, 2, 3] []) [.read (.data 3), .process 3]).remaining = 0 := by decide
+
+example : mapRecvErr .ECONNRESET ≠ .again ∧ ((Errno.EINTR).isEagain || (Errno.EINTR).isEintr) = true := by decide
 
 end Mhd.C07
